@@ -34,6 +34,7 @@ type vfC27Case struct {
 	CustomReason  string
 	RefreshExpire int
 	RefreshInfo   string
+	LabelTF       *vfTF // label filter used for targets 2 and 3 (drawn from the whole filter grammar: leaves, and/or/not)
 }
 
 var vfC27SubOpts = []string{"ExpireAt", "ChannelInfo", "EmitPresence", "EmitJoinLeave", "PushJoinLeave", "Positioning", "Recovery", "RecoveryMode", "Data", "RecoverSince", "AutoCacheRecover", "Source", "HistoryMetaTTL"}
@@ -47,8 +48,8 @@ func (c vfC27Case) String() string {
 	}
 	sort.Strings(used)
 	kind := []string{"Subscribe", "Unsubscribe", "Disconnect", "Refresh"}[c.Kind]
-	return fmt.Sprintf("Node0.%s target=%d proto=%s prePubs=%d options=%v {expireIn=%d info=%q data=%q source=%d metaTTL=%ds recoverOff=%d recoverCurEpoch=%v cacheMode=%v custom=(%d,%q) refreshExpireIn=%d refreshInfo=%q}",
-		kind, c.Target, c.Proto, c.PrePubs, used, c.ExpireIn, c.ChannelInfo, c.Data, c.Source, c.MetaTTL, c.RecoverOff, c.RecoverCur, c.CacheMode, c.CustomCode, c.CustomReason, c.RefreshExpire, c.RefreshInfo)
+	return fmt.Sprintf("Node0.%s target=%d labelFilter=(%s) proto=%s prePubs=%d options=%v {expireIn=%d info=%q data=%q source=%d metaTTL=%ds recoverOff=%d recoverCurEpoch=%v cacheMode=%v custom=(%d,%q) refreshExpireIn=%d refreshInfo=%q}",
+		kind, c.Target, c.LabelTF, c.Proto, c.PrePubs, used, c.ExpireIn, c.ChannelInfo, c.Data, c.Source, c.MetaTTL, c.RecoverOff, c.RecoverCur, c.CacheMode, c.CustomCode, c.CustomReason, c.RefreshExpire, c.RefreshInfo)
 }
 
 func vfC27Gen(rt *rapid.T) vfC27Case {
@@ -76,6 +77,7 @@ func vfC27Gen(rt *rapid.T) vfC27Case {
 	c.Use["RefreshInfo"] = rapid.Bool().Draw(rt, "useRefreshInfo")
 	c.RefreshExpire = rapid.SampledFrom([]int{-5, 40, 4000}).Draw(rt, "refreshExpire")
 	c.RefreshInfo = rapid.SampledFrom([]string{`{"i":2}`, `{"j":"k"}`}).Draw(rt, "refreshInfo")
+	c.LabelTF = vfTFGen(rt, "labeltf", 2)
 	return c
 }
 
@@ -157,7 +159,7 @@ func vfC27Run(t *testing.T, cs vfC27Case, out *vfC27Out, isKnown func(string) bo
 		ch := "ch"
 		ws, bus, err := vfNewCluster(2, func(i int) Config { return Config{Name: fmt.Sprintf("n%d", i)} }, func(i int, w *vfWorld) {
 			w.Connecting = func(c *vfConn, e ConnectEvent) (ConnectReply, error) {
-				return ConnectReply{Credentials: &Credentials{UserID: c.User, ExpireAt: time.Now().Unix() + 600, Info: []byte(`{"c":0}`)}, Labels: map[string]string{"g": "x"}}, nil
+				return ConnectReply{Credentials: &Credentials{UserID: c.User, ExpireAt: time.Now().Unix() + 600, Info: []byte(`{"c":0}`)}, Labels: map[string]string{"g": "x", "k": "a", "j": "b"}}, nil
 			}
 			w.PerClient = func(c *vfConn, client *Client) {
 				client.OnRefresh(func(e RefreshEvent, cb RefreshCallback) {
@@ -205,8 +207,17 @@ func vfC27Run(t *testing.T, cs vfC27Case, out *vfC27Out, isKnown func(string) bo
 		evFrom := []int{len(ws[0].Events()), len(ws[1].Events())}
 
 		user := "u"
-		matchingLabel := &FilterNode{Key: "g", Cmp: "eq", Val: "x"}
+		// target 2: a filter drawn from the whole grammar over the connections' labels {k:a, j:b} (it may or may not
+		// match - both connections carry the same labels, so the effect must still be equal); target 3: never matches
+		matchingLabel := cs.LabelTF.Proto()
 		otherLabel := &FilterNode{Key: "g", Cmp: "eq", Val: "zzz"}
+		if cs.Target == 2 {
+			if cs.LabelTF.Match(map[string]string{"g": "x", "k": "a", "j": "b"}) {
+				out.labels = append(out.labels, "label_filter_matches")
+			} else {
+				out.labels = append(out.labels, "label_filter_excludes")
+			}
+		}
 		nopts := 0
 		var callErr error
 		switch cs.Kind {
